@@ -345,6 +345,22 @@ func (node *TopNode) resolveMerge(binding *syntax.MergeExp, t syntax.Type,
 	}
 	parts, errs := node.getParts(binding.GetCall(),
 		node.mergeMatchFork(binding, fork, forkRefId), forkRefId)
+	if len(parts) == 0 && len(errs) == 0 && binding.ForkNode == nil {
+		// Nothing in the merged value or in the inputs of the call forks
+		// over the call (the value is constant), so no node's forks
+		// enumerate the elements.  The split source itself does.
+		if ready, sp, ok, err := node.mergeSourceParts(binding, fork, readSize); ok {
+			if err != nil {
+				return true, nil, &elementError{
+					element: "source of merge " + binding.Call.GetFqid(),
+					inner:   err,
+				}
+			} else if !ready {
+				return false, nil, nil
+			}
+			parts = sp
+		}
+	}
 	if err := errs.If(); err != nil {
 		util.PrintError(err, "runtime",
 			"Resolving parts for %s.  This will likely result in further errors.",
@@ -498,6 +514,66 @@ func (node *TopNode) mergeMatchFork(binding *syntax.MergeExp, fork ForkId,
 		return matched
 	}
 	return fork
+}
+
+// mergeSourceParts computes the parts of a merge directly from the run-time
+// value of the collection which the merged call splits, for a merge which
+// has no node from which the forks could be enumerated.  ok is false if the
+// source is not a typed reference.
+func (node *TopNode) mergeSourceParts(binding *syntax.MergeExp, fork ForkId,
+	readSize int64) (ready bool, parts []*ForkSourcePart, ok bool, err error) {
+	if binding.MergeOver == nil || binding.MergeOver.KnownLength() {
+		return false, nil, false, nil
+	}
+	var ref *syntax.BoundReference
+	switch s := binding.MergeOver.(type) {
+	case *syntax.BoundReference:
+		ref = s
+	case *syntax.MapCallSet:
+		ref, _ = s.Master.(*syntax.BoundReference)
+	}
+	if ref == nil || ref.Exp == nil || ref.Type == nil {
+		return false, nil, false, nil
+	}
+	ready, val, err := node.resolve(ref.Exp, ref.Type, fork, readSize)
+	if err != nil || !ready {
+		return ready, nil, true, err
+	}
+	src := binding.GetCall()
+	makePart := func(id ForkIdPart) *ForkSourcePart {
+		return &ForkSourcePart{
+			Split: &syntax.SplitExp{
+				Value:  &syntax.MergeExp{MergeOver: src},
+				Source: src,
+				Call:   src,
+			},
+			Id: id,
+		}
+	}
+	switch binding.CallMode() {
+	case syntax.ModeArrayCall:
+		n, err := getUnknownLength(val)
+		if err != nil {
+			return true, nil, true, err
+		}
+		parts = make([]*ForkSourcePart, n)
+		for i := range parts {
+			parts[i] = makePart(arrayIndexFork(i))
+		}
+		return true, parts, true, nil
+	case syntax.ModeMapCall:
+		keys, err := getUnknownKeys(val)
+		if err != nil {
+			return true, nil, true, err
+		}
+		sort.Strings(keys)
+		parts = make([]*ForkSourcePart, len(keys))
+		for i, k := range keys {
+			parts[i] = makePart(mapKeyFork(k))
+		}
+		return true, parts, true, nil
+	}
+	return false, nil, false, nil
 }
 
 // getParts returns the ForkSourcePart corresponding the the given call for
